@@ -159,6 +159,12 @@ Theorem C14_reader_forwards : forall (c : Reply.conn) d rest,
 Proof. exact reader_forwards. Qed.
 Print Assumptions C14_reader_forwards.
 
+(* ... and that generated message has the id 0x8003, so C14_reader_forwards applies to what parse returns *)
+Theorem C14_rerequest_message_id : forall id x, decoded_header (x_first x) -> (length (x_slots x) <= 510)%nat ->
+  m_id (p_msg (rereq_pmsg (mk_rereq id x))) = 32771.
+Proof. exact rereq_message_id. Qed.
+Print Assumptions C14_rerequest_message_id.
+
 (* ---- non-vacuity and the limit of the property's quantifier ---- *)
 Definition ex_pkt (id sum no serial : N) (body : list N) : msg :=
   {| m_id := id; m_len := len body; m_enc := 0; m_frag := (if sum =? 0 then 0 else 1); m_ver := 0;
@@ -226,4 +232,44 @@ Example C14_example_writer :
   Reply.c_seq (fst (Reply.writer_rereq c)) = 8 /\ Reply.c_rq (fst (Reply.writer_rereq c)) = [] /\
   map (fun o => match o with Reply.OWrite w => Reply.wire_bytes w | _ => [] end) (firstn 1 (snd (Reply.writer_rereq c))) =
     [[126; 128; 3; 0; 9; 1; 35; 69; 103; 137; 1; 0; 7; 18; 52; 3; 0; 2; 0; 3; 0; 5; 36; 126]].
+Proof. vm_compute. repeat split; reflexivity. Qed.
+
+(* the hypotheses of C14_exact_list / C14_then_completes on ex14 (packet 1 at 0, the rest within 60 s,
+   packets 1 and 4 seen before the first round) *)
+Definition ex14_bodies : list (list N) := [[1]; [2]; [3]; [4]; [5]].
+Example C14_example_hypotheses :
+  ex14_bodies <> [] /\ Forall nonempty ex14_bodies /\
+  good_pkt 2049 (len ex14_bodies) ex14_bodies (ex_pkt 2049 5 1 4660 [1]) /\
+  Forall (ok_after 2049 ex14_bodies 0) (tl ex14) /\
+  numbers 2049 5 (firstn 3 ex14) = [1; 4] /\ last_stamp 2049 5 0 (firstn 2 (tl ex14)) = 100.
+Proof.
+  split. discriminate. split. repeat constructor; discriminate. split.
+  - unfold good_pkt. cbn. repeat split; try reflexivity; discriminate.
+  - split; [|split; vm_compute; reflexivity]. unfold ex14. cbn [tl].
+    repeat (apply Forall_cons; [split; [vm_compute; discriminate|cbn [snd ev_ok]]|]); try apply Forall_nil;
+      first [ exact I
+            | right; left; split; [unfold good_pkt; cbn; repeat split; try reflexivity; discriminate|cbn; discriminate] ].
+Qed.
+
+(* `stored` (C14_none_before_5s): packet 4 in the state after packet 1 *)
+Example C14_example_stored :
+  stored 2049 (fst (run [] [(0, EvMsg (ex_pkt 2049 5 1 4660 [1]))])) (ex_pkt 2049 5 4 4663 [4]).
+Proof.
+  unfold stored. split. reflexivity. split. discriminate. right. vm_compute.
+  eexists. split. reflexivity. split; discriminate.
+Qed.
+
+(* C14_reader_forwards with the channel full: three re-requests queued, a fourth in the reader's
+   input: the reader takes it in hand and its send leaves the state unchanged (blocked, not dropped);
+   after one writer move the same send succeeds *)
+Example C14_example_reader_blocks :
+  let x := {| x_slots := [[1]; []]; x_create := 0; x_update := 0; x_first := ex_pkt 2049 2 1 4660 [1] |} in
+  let p := rereq_pmsg (mk_rereq 2049 x) in
+  let d := {| Reply.d_m := p_msg p; Reply.d_complete := false; Reply.d_data := p_raw p |} in
+  let c := {| Reply.c_pending := [d]; Reply.c_hand := None; Reply.c_q := []; Reply.c_rq := [d; d; d]; Reply.c_seq := 0;
+              Reply.c_h := Reply.hstate0 |} in
+  let c1 := fst (Reply.reader_look c) in
+  Reply.c_hand c1 = Some d /\ fst (Reply.reader_send c1) = c1 /\
+  len (Reply.c_rq (fst (Reply.reader_send (fst (Reply.writer_rereq c1))))) = 3 /\
+  Reply.c_hand (fst (Reply.reader_send (fst (Reply.writer_rereq c1)))) = None.
 Proof. vm_compute. repeat split; reflexivity. Qed.
